@@ -322,6 +322,7 @@ impl Config {
         match build(&case.gc) {
             Built::U(af, labels) => self.run_generic(&af, &labels, case, enc, &backend, bname, fk, rec),
             Built::S(af, labels) => self.run_generic(&af, &labels, case, enc, &backend, bname, fk, rec),
+            Built::C(af, labels) => self.run_generic(&af, &labels, case, enc, &backend, bname, fk, rec),
         }
     }
 }
